@@ -204,14 +204,18 @@ theorem accepted_handlers_close_before_owner_leaves (g : Graph) (hw : wf g = tru
 /-- Handlers are SUBMITTED only after the body has closed with the matching outcome: the acceptance
 (`hacc`) or refusal (`hrej`) of a handler submission is preceded by the close of the body — any close
 for `finally`, a close without error for the success handler, with an error for the fail handler —
-and a refusal moreover by a cause of failure in the ROOT context. -/
+and a refusal moreover by a cause of failure in the ROOT context (in the model the manager refuses a
+handler only because the root scope is done; the clause of the monitor asks for a cause in the
+handler's or the root context, which is what the implementation will do once KF-C16-1 is repaired). -/
 theorem handlers_submitted_after_body (g : Graph) (hw : wf g = true) (sched : List Label) (pre post : List Ev)
     (h : Nat) :
     ((run g sched).tr = pre ++ Ev.hacc h :: post → isHandler g h = true ∧ submitted g pre h) ∧
     ((run g sched).tr = pre ++ Ev.hrej h :: post →
       isHandler g h = true ∧ submitted g pre h ∧ causeIn g 0 pre) := by
   have htr := run_traceOk ((wf_iff g).mp hw) sched
-  exact ⟨fun hs => htr pre _ post hs, fun hs => htr pre _ post hs⟩
+  have ho := run_traceOrd ((wf_iff g).mp hw) sched
+  exact ⟨fun hs => htr pre _ post hs,
+    fun hs => ⟨(htr pre _ post hs).1, (htr pre _ post hs).2.1, (ho pre _ post hs).2⟩⟩
 
 /-- In every run the try goroutine submits `finally` FIRST: when the submission of the fail or of the
 success handler is decided (accepted or refused), the finally handler of the same try — if one is
@@ -223,7 +227,7 @@ theorem finally_submitted_first (g : Graph) (hw : wf g = true) (sched : List Lab
     ((run g sched).tr = pre ++ Ev.hacc h :: post → Ev.hacc f ∈ pre) ∧
     ((run g sched).tr = pre ++ Ev.hrej h :: post → Ev.hacc f ∈ pre) := by
   have ho := run_traceOrd ((wf_iff g).mp hw) sched
-  exact ⟨fun hs => ho pre _ post hs y f hr hf, fun hs => ho pre _ post hs y f hr hf⟩
+  exact ⟨fun hs => ho pre _ post hs y f hr hf, fun hs => (ho pre _ post hs).1 y f hr hf⟩
 
 /-- Every handler that has to run — `finally`, and the one selected by the outcome of the body — has
 STARTED when the owner of the try block closes, unless its fate was sealed by an event with a cause of
